@@ -36,8 +36,16 @@ func c15Judge(env *hx.Env, files hx.Files, m c15Meta) (hx.Verdict, *cliRun) {
 	if !sc.Dry && r.Res.Exit == 0 {
 		allowed[r.rel(r.OutAbs)] = true
 	}
-	if sc.Log {
+	if sc.Log && r.LogAbs != "" {
 		allowed[r.rel(r.LogAbs)] = true
+	}
+	if sc.Log && r.LogAbs == "" {
+		for _, p := range r.otherLogs() {
+			allowed[p] = true
+		}
+	}
+	if sc.OutKind == "is-input" {
+		delete(allowed, r.rel(r.OutAbs)) // the setup file is never modified, whatever the flags say
 	}
 	created, deleted, modified := r.Before.Diff(r.After)
 	cls := fmt.Sprintf("%s|%s|pre=%s", m.InputKind, flagClass(sc), sc.Pre)
@@ -69,8 +77,8 @@ func keys(m map[string]bool) []string {
 func TestC15(t *testing.T) {
 	env, rec := start(t, "C15", "fault_enumeration",
 		"inputs = rapid-generated accepted programs and, derived from each, rejected inputs of every failure stage (missing file, syntax error, no converter interface, bad notation, unknown converter, non-struct operand, "+
-			"literal that makes the generated code unformattable); for each input all 2^4 flag sets x drawn (-out target in {default, other file, absolute, nested existing dir, missing dir, path that is a directory}, "+
-			"output pre-state in {absent, other content, identical content, broken Go}, input spelling). Oracle: whole-tree snapshot diff: changed paths are a subset of {output (only if not -dry and exit 0), log (only with -log)}, nothing deleted. "+
+			"literal that makes the generated code unformattable); for each input all 2^4 flag sets x drawn (-out target in {default, other file, absolute, nested existing dir, missing dir, path that is a directory, a name ending in .log (the documented log path is then the output itself), the setup file itself}, "+
+			"output pre-state in {absent, other content, identical content, broken Go, a longer earlier result}, input spelling). Oracle: whole-tree snapshot diff: changed paths are a subset of {output (only if not -dry and exit 0), log (only with -log)}, nothing deleted. "+
 			"Non-trivial: a run that is dry, failing, or has a pre-existing output; distinct by (input kind, flags, out target, pre-state, spelling, program hash).")
 	defer rec.Done()
 	needBin(t, env)
@@ -95,8 +103,8 @@ func TestC15(t *testing.T) {
 	}
 	rec.ReplayTier(judgeCase)
 
-	outKinds := []string{"", "", "same-dir", "cwd", "abs", "nested-dir", "missing-dir", "is-dir"}
-	pres := []string{"absent", "other", "identical", "stale-broken"}
+	outKinds := []string{"", "", "same-dir", "cwd", "abs", "nested-dir", "missing-dir", "is-dir", "log-ext", "is-input"}
+	pres := []string{"absent", "other", "identical", "stale-broken", "longer"}
 	rapidRun(t, env, "inputs", env.Pick(64, 600), func(rt *rapid.T) {
 		p := genSmallProg(rt)
 		accepted := p.Files()
